@@ -1021,10 +1021,16 @@ func caMarshalTok(t *Toks, p *rtp.Packet) {
 // (every slice of such a packet is a window into ONE receive buffer — the usual situation when a
 // received packet is cloned).  Only used for well-formed descriptions.
 func caRebuildViaWire(orig *rtp.Packet, caReusedReceiver bool) *rtp.Packet {
+	q, _ := caRebuildViaWireBuf(orig, caReusedReceiver)
+	return q
+}
+
+// caRebuildViaWireBuf: also returns the receive buffer the rebuilt packet's slices are windows into.
+func caRebuildViaWireBuf(orig *rtp.Packet, caReusedReceiver bool) (*rtp.Packet, []byte) {
 	var wire []byte
 	var err error
 	if try(func() { wire, err = orig.Marshal() }) || err != nil {
-		return nil
+		return nil, nil
 	}
 	q := &rtp.Packet{}
 	if caReusedReceiver {
@@ -1035,12 +1041,12 @@ func caRebuildViaWire(orig *rtp.Packet, caReusedReceiver bool) *rtp.Packet {
 			0xBE, 0xDE, 0, 2, 0x10, 0xAA, 0x21, 0xBB, 0xCC, 0, 0, 0, 9})
 	}
 	if try(func() { err = q.Unmarshal(wire) }) || err != nil {
-		return nil
+		return nil, nil
 	}
 	if !orig.Header.Extension {
 		q.Header.ExtensionProfile = orig.Header.ExtensionProfile
 	}
-	return q
+	return q, wire
 }
 
 func observeC20(c *Case, in *PacketIn, extsNil bool, m c20Mut, onClone bool) {
@@ -1049,10 +1055,11 @@ func observeC20(c *Case, in *PacketIn, extsNil bool, m c20Mut, onClone bool) {
 
 func observeC20x(c *Case, in *PacketIn, extsNil bool, m c20Mut, onClone, viaWire bool) {
 	orig := buildC20(in, extsNil)
+	var recvBuf []byte // the datagram `orig` was decoded from (viaWire), else nil
 	if viaWire {
 		reused := c.R.Bool()
-		if q := caRebuildViaWire(orig, reused); q != nil {
-			orig = q
+		if q, wire := caRebuildViaWireBuf(orig, reused); q != nil {
+			orig, recvBuf = q, wire
 			c.Tag("built=unmarshal")
 			if reused {
 				c.Tag("built=unmarshal-into-reused-receiver")
@@ -1060,10 +1067,32 @@ func observeC20x(c *Case, in *PacketIn, extsNil bool, m c20Mut, onClone, viaWire
 		}
 	}
 	orig.Header.PayloadOffset = c.R.Pick(0, 12, 16, c.R.Intn(2000)) // deprecated, but a header field: Clone must carry it
+	// The deprecated pair Packet.Raw / Header.PayloadOffset set by hand, the way callers written against
+	// the old API keep them: Raw = the datagram the packet was decoded from (the very receive buffer
+	// when there is one, else its wire image), PayloadOffset = the header size; also arbitrary values.
+	switch c.R.Intn(5) {
+	case 0, 1:
+		raw := recvBuf
+		if raw == nil {
+			try(func() { raw, _ = orig.Marshal() })
+		}
+		if raw != nil {
+			orig.Raw = raw
+			try(func() { orig.Header.PayloadOffset = orig.Header.MarshalSize() })
+			c.Tag("raw=datagram,payloadOffset=header-size")
+		}
+	case 2:
+		orig.Raw = c.R.Bytes(c.R.Pick(0, 1, 12, 40, c.R.Intn(300)))
+		if c.R.Bool() {
+			orig.Header.PayloadOffset = c.R.Intn(len(orig.Raw) + 2)
+		}
+		c.Tag("raw=arbitrary")
+	}
 	nils := caNilsOfHeader(&orig.Header)
 	nils.payload = orig.Payload == nil
 	writePacketIn(&c.I, in)
 	c.I.Nat(orig.Header.PayloadOffset)
+	c.I.OBytes(orig.Raw)
 	caWriteNils(&c.I, nils, true)
 	c.I.Nat(m.kind).Nat(m.a).Nat(m.b).Bytes(m.bs).Bool(onClone)
 
@@ -1078,6 +1107,7 @@ func observeC20x(c *Case, in *PacketIn, extsNil bool, m c20Mut, onClone, viaWire
 	cn.payload = clone.Payload == nil
 	caWriteNils(&c.O, cn, true)
 	c.O.Nat(clone.Header.PayloadOffset)
+	c.O.OBytes(clone.Raw)
 	origBytes := caByteSlicesOf(&orig.Header, orig.Payload)
 	c.O.Bool(caAnyOverlap([][]byte{clone.Payload}, origBytes))
 	c.O.Bool(overlaps(caCsrcBytes(clone.CSRC), caCsrcBytes(orig.CSRC)))
